@@ -330,6 +330,7 @@ def harness_layout(ctx, case):
 def harness_text(ctx, case):
     text = case['text']
     out = {'reached': True, 'asserts': 0, 'violations': []}
+    ctx.parse_fuel = ctx.fuel
     r, cm = ucgrun.parse_program(ctx, text, comment_map=True)
     if r.variant != 0:
         raise interp.Unsupported('input %s does not parse' % case['name'])
@@ -502,7 +503,9 @@ def run(fw):
     fw.explore('layout', harness_layout, lay, fuel=2_000_000_000)
     fw.explore('strings', harness_strings, strs, fuel=2_000_000_000)
     fw.explore('literals', harness_text, lits, fuel=2_000_000_000)
-    recs = fw.explore('corpus', harness_text, eng_corpus, fuel=20_000_000_000)
+    # the real parser backtracks exponentially in the nesting depth (examples/test_xml.ucg: 5 s natively): files that exceed the
+    # step budget in the engine are covered by the native run below only
+    recs = fw.explore('corpus', harness_text, eng_corpus, fuel=30_000_000 if quick else 400_000_000, tolerate=('bound',))
     # the whole corpus natively (concrete differential; also validates the engine's printer run against the real one)
     nat = fw.native()
     outs = nat.run_many([{'kind': 'fmt2', 'text': c['text']} for c in corpus])
